@@ -108,7 +108,10 @@ impl s2n_quic::provider::connection_id::Validator for CidFormat {
     }
 }
 
-pub struct Random(Rng);
+/// deterministic random provider. `script`: the bytes handed out by the first `public_random_fill` of exactly that
+/// length — on a client endpoint this is the original Destination Connection ID of its first Initial
+/// (endpoint/mod.rs: `public_random_fill(&mut [0u8; InitialId::MIN_LEN])`), i.e. the client's own choice.
+pub struct Random(Rng, Option<Vec<u8>>);
 
 impl s2n_quic::provider::random::Provider for Random {
     type Generator = Self;
@@ -120,6 +123,10 @@ impl s2n_quic::provider::random::Provider for Random {
 
 impl s2n_quic::provider::random::Generator for Random {
     fn public_random_fill(&mut self, dest: &mut [u8]) {
+        if self.1.as_ref().map(|v| v.len() == dest.len()).unwrap_or(false) {
+            dest.copy_from_slice(&self.1.take().unwrap());
+            return;
+        }
         for b in dest {
             *b = self.0.next() as u8;
         }
@@ -187,7 +194,10 @@ impl s2n_quic::provider::stateless_reset_token::Provider for SResetTokens {
 }
 
 macro_rules! build {
-    ($builder:expr, $io:expr, $cfg:expr, $ep:expr, $lim:expr, $tls:expr, $salt:expr) => {{
+    ($builder:expr, $io:expr, $cfg:expr, $ep:expr, $lim:expr, $tls:expr, $salt:expr) => {
+        build!($builder, $io, $cfg, $ep, $lim, $tls, $salt, "", None)
+    };
+    ($builder:expr, $io:expr, $cfg:expr, $ep:expr, $lim:expr, $tls:expr, $salt:expr, $label:expr, $script:expr) => {{
         let mut io = $io;
         if $cfg.max_mtu > 0 {
             io = io.with_max_mtu($cfg.max_mtu);
@@ -201,8 +211,8 @@ macro_rules! build {
                 muts: crate::tpw::parse(&$cfg.tp_mut, $ep).unwrap_or_default(),
                 seed: $cfg.seed,
             })?
-            .with_event(Sub { enabled: $cfg.events, endpoint_drops: $cfg.endpoint_drops })?
-            .with_random(Random(Rng(cfg::mix($cfg.seed ^ $salt))))?
+            .with_event(Sub { enabled: $cfg.events, endpoint_drops: $cfg.endpoint_drops, label: $label })?
+            .with_random(Random(Rng(cfg::mix($cfg.seed ^ $salt)), $script))?
             .with_limits(mk_limits($lim))?
             .with_packet_interceptor(Icpt::new($ep, $cfg))?;
         // same settings as the library's default connection-id provider (16 random bytes, no lifetime,
@@ -226,6 +236,7 @@ fn rebinder(cfg: &Cfg) -> impl FnOnce(io::Socket) + 'static {
     let mode = cfg.rebind_ip;
     move |socket: io::Socket| {
         spawn(async move {
+            let mut home: Option<std::net::SocketAddr> = None;
             for (k, at) in times.iter().enumerate() {
                 let now_ms = trace::now() / 1000;
                 if *at > now_ms {
@@ -233,8 +244,12 @@ fn rebinder(cfg: &Cfg) -> impl FnOnce(io::Socket) + 'static {
                 }
                 let Ok(old) = socket.local_addr() else { return };
                 let mut new = old;
-                let change_ip = mode == 1 || (mode == 2 && k % 2 == 1);
-                if change_ip {
+                let change_ip = mode == 1 || mode == 4 || (mode == 2 && k % 2 == 1);
+                let home_addr = *home.get_or_insert(old);
+                if (mode == 3 || mode == 4) && k % 2 == 1 {
+                    // back to the first address: the server already has a path for it
+                    new = home_addr;
+                } else if change_ip {
                     if let std::net::IpAddr::V4(ip) = old.ip() {
                         let v = u32::from_be_bytes(ip.octets()).wrapping_add(1);
                         new.set_ip(std::net::Ipv4Addr::from(v).into());
@@ -271,6 +286,22 @@ pub fn setup(handle: &Handle, cfg: &Cfg) -> Result<()> {
     );
     let addr = start_server(server, cfg.clone())?;
     start_client(client, addr, cfg.clone());
+    if cfg.conn2_at_ms > 0 {
+        // a second, independent client endpoint (own address); its first Initial carries the chosen DCID
+        let script = if cfg.conn2_dcid.is_empty() { None } else { Some(cfg.conn2_dcid.clone()) };
+        let client2: Client = build!(
+            Client::builder(),
+            handle.builder(),
+            cfg,
+            "d",
+            &cfg.client,
+            s2n_quic::provider::tls::default::Client::builder().with_certificate(certificates::CERT_PEM)?.build()?,
+            0xd2,
+            "d",
+            script
+        );
+        start_client2(client2, addr, cfg.clone());
+    }
     // watchdog: give up at the deadline (reported, so that "never terminates" is observable)
     let deadline = cfg.deadline_ms;
     spawn(async move {
@@ -576,6 +607,44 @@ fn start_server(mut server: Server, cfg: Cfg) -> Result<std::net::SocketAddr> {
         }
     });
     Ok(addr)
+}
+
+/// the second client: connects at `conn2_at_ms`, moves `conn2_size` bytes over one bidirectional stream.
+/// Not a primary task: the scenario ends with the first client.
+fn start_client2(client: Client, addr: std::net::SocketAddr, cfg: Cfg) {
+    spawn(async move {
+        io::time::delay(Duration::from_millis(cfg.conn2_at_ms)).await;
+        if let Ok(a) = client.local_addr() {
+            log("d", format!("bound {a}"));
+        }
+        let connect = Connect::new(addr).with_server_name("localhost");
+        let mut connection = match client.connect(connect).await {
+            Ok(c) => c,
+            Err(e) => {
+                log("d", format!("err - connect {}", dbg(&e)));
+                return;
+            }
+        };
+        log("d", format!("connected {}", connection.id()));
+        match connection.open_bidirectional_stream().await {
+            Ok(stream) => {
+                let sid: u64 = stream.id().into();
+                log("d", format!("open {sid} bidi"));
+                let (recv, send) = stream.split();
+                let key_out = cfg::stream_key(cfg.seed, sid, false);
+                let key_in = cfg::stream_key(cfg.seed, sid, true);
+                let size = cfg.conn2_size;
+                let r = spawn(read_all("d", recv, key_in, cfg.clone(), None));
+                write_all("d", send, key_out, size, cfg.clone(), None, 0x7c).await;
+                let _ = r.await;
+            }
+            Err(e) => log("d", format!("err - open_bidirectional_stream {}", dbg(&e))),
+        }
+        log("d", "done".to_string());
+        // keep the connection (and its server-side state) alive until the scenario ends
+        io::time::delay(Duration::from_millis(cfg.deadline_ms)).await;
+        drop(connection);
+    });
 }
 
 fn start_client(client: Client, addr: std::net::SocketAddr, cfg: Cfg) {
